@@ -77,7 +77,7 @@ func C04_Prune() {
 	h.doPrune()
 	h.checkVersions("after-prune")
 	h.audit()
-	switch vChoice("then", 3) {
+	switch vChoice("then", 4) {
 	case 1:
 		h.doReopen()
 		h.checkVersions("after-reopen")
@@ -91,6 +91,16 @@ func C04_Prune() {
 		h.checkVersions("after-second-prune")
 		h.audit()
 		h.checkProofs("after-second-prune")
+	case 3:
+		// restart, more history on top, then prune again (the second deletion starts from whatever the
+		// reopened store reports as its oldest version)
+		h.doReopen()
+		h.doSet(vChoice("key", h.p.n))
+		h.doCommit()
+		h.doPrune()
+		h.checkVersions("after-reopen-second-prune")
+		h.audit()
+		h.checkProofs("after-reopen-second-prune")
 	default:
 		h.checkProofs("after-prune")
 	}
